@@ -5,7 +5,9 @@ EXTENDS Writer, Json
 \* v5: the sources of v1 with other line endings (CRLF): for backends that copy a multi-line doc comment through, the
 \* output differs from v1's in CR bytes only - a difference a line-wise comparison would not see
 \* v6: the sources of v1 plus an item typeshare must reject (a u64 field) in the crate that is written second: the run fails
-MCVersions == {"v1", "v2", "v3", "v4", "v5", "v6"}
+\* v7: the sources of v3 under another CONFIGURATION (typeshare.toml: decorators, constraints of the unit helper type): a
+\* version is everything the output depends on, and the helper file depends on the configuration too
+MCVersions == {"v1", "v2", "v3", "v4", "v5", "v6", "v7"}
 MCFails == [v \in MCVersions |-> v = "v6"]
 MCGen == [v \in MCVersions |->
     CASE v = "v1" -> [a |-> "A1", b |-> "B1"]
@@ -13,6 +15,7 @@ MCGen == [v \in MCVersions |->
       [] v = "v3" -> [a |-> "A1", b |-> "B3", codable |-> "CV"]
       [] v = "v4" -> [a |-> "A1", b |-> ""]
       [] v = "v5" -> [a |-> "A1cr", b |-> "B1"]
-      [] v = "v6" -> [a |-> "A1", b |-> "B6"]]
+      [] v = "v6" -> [a |-> "A1", b |-> "B6"]
+      [] v = "v7" -> [a |-> "A1c", b |-> "B3c", codable |-> "CVc"]]
 EmitHistory == PrintT(<<"REPLAY", ToJson([history |-> hist])>>)
 =============================================================================
